@@ -36,6 +36,14 @@ inductive InitIce where
   | direct
 deriving DecidableEq, Repr, Inhabited
 
+/-- `self.initIce = initIce.lower()` after the validation `initIce.lower() ∈ {direct, indirect}`:
+the user's capitalisation does not matter; anything else is a `ValueError` (`none`). -/
+def InitIce.ofString (s : String) : Option InitIce :=
+  match s.toLower with
+  | "indirect" => some .indirect
+  | "direct" => some .direct
+  | _ => none
+
 /-- the derived constants read by `run()` from `self.const` -/
 structure Consts (α : Type) where
   solid_fraction : α
@@ -169,6 +177,23 @@ def deriveConsts (y : Primary α) : Consts α :=
     cp_solution := cp_solution, depression := depression, mass := mass, alpha := alpha,
     beta_solution := beta_solution, T_eq := y.T_eq, T_eq_l := y.T_eq - depression, hl := hl,
     b := y.b, V := V }
+
+/-! ### shelf coefficients (`_buildShelfHeatFlow`) -/
+
+/-- `k["shelf"]` per vial as `run()` uses it: on a shelf (`nz = 1`) with `s_sigma_rel > 0`
+`s0 + normal_i * s_sigma_rel * s0`, negative values set to 0; without variability the scalar
+`s0`; in a pallet (`nz > 1`) 0. `normals` are the recorded draws of `rng.normal(size=n)`. -/
+def shelfCoeffs (nz n : Nat) (s0 : α) (sRel : Option α) (normals : List α) : List α :=
+  if nz == 1 then
+    match sRel with
+    | some r =>
+      if zero < r then
+        (List.range n).map fun i =>
+          let k := s0 + normals.getD i zero * r * s0
+          if k < zero then zero else k
+      else List.replicate n s0
+    | none => List.replicate n s0
+  else List.replicate n zero
 
 /-! ### heat flow -/
 
